@@ -253,6 +253,10 @@ type gracefulSrv struct {
 	stopErr bool
 }
 
+// slowStopMs > 0: Stop of a graceful server takes that long after it has
+// closed its listener.
+var slowStopMs int32
+
 func (s *gracefulSrv) Address() string { return s.addr }
 func (s *gracefulSrv) Stop() error {
 	emit(s.gen, "stop", s.addr)
@@ -261,6 +265,13 @@ func (s *gracefulSrv) Stop() error {
 	s.mu.Unlock()
 	if ln != nil {
 		ln.Close()
+	}
+	// a graceful stop outlasts the serve loop: Serve returns as soon as the
+	// listener is closed, Stop only once the connections in flight have
+	// drained (what net/http's Shutdown does)
+	if ms := atomic.LoadInt32(&slowStopMs); ms > 0 {
+		time.Sleep(time.Duration(ms) * time.Millisecond)
+		emit(s.gen, "stop-done", s.addr)
 	}
 	if s.stopErr {
 		// e.g. a graceful shutdown that ran into its deadline: the server is
@@ -546,11 +557,25 @@ func runHistory(c *lib.Ctx, id int, ops []string) {
 	}
 	stopAll := func(viaOp string) {
 		old := live
+		// every other history ends the way the process does: with the
+		// process-wide Stop, and with graceful servers whose Stop takes a
+		// while longer than their serve loops
+		processWide := viaOp == "final-stop" && h.id%2 == 1
+		if processWide {
+			atomic.StoreInt32(&slowStopMs, 20)
+			h.c.Count("histories_ended_by_process_wide_stop", 1)
+		}
 		evs, _ := step(viaOp, old.Gen, func() error {
-			e := inst.Stop()
+			var e error
+			if processWide {
+				e = casket.Stop()
+			} else {
+				e = inst.Stop()
+			}
 			closeAllPlain()
 			return e
 		})
+		atomic.StoreInt32(&slowStopMs, 0)
 		h.expect(evs, fmt.Sprintf("stop gen %d", old.Gen), map[string]int{})
 		// all servers of the lineage must end, then Wait returns
 		dl := time.Now().Add(20 * time.Second)
@@ -580,7 +605,7 @@ func runHistory(c *lib.Ctx, id int, ops []string) {
 			gens[r.Gen] = true
 		}
 		for _, e := range all {
-			if e.Kind == "serve-end" && gens[e.Gen] && e.Seq > lastEnd {
+			if (e.Kind == "serve-end" || e.Kind == "stop-done") && gens[e.Gen] && e.Seq > lastEnd {
 				lastEnd = e.Seq
 			}
 		}
